@@ -69,14 +69,20 @@ def equalish(a, b, ran):
     return util.close(a, b, 1e-10, 1e-12)
 
 
-def protocol(ctx, name, op, rng, manufactured=''):
+def protocol(ctx, name, op, rng, manufactured='', special=None):
     comp = comp_of(name) + manufactured
     var = variant_of(name)
     cfg = '%s;%s->%s' % (var, util.space_tag(op.domain), util.space_tag(op.range)) if var else '%s->%s' % (util.space_tag(op.domain), util.space_tag(op.range))
     ctx.ev('call-protocol')
-    ctx.case('protocol;' + comp, name + manufactured)
+    ctx.case('protocol;' + comp, name + manufactured + (';' + special if special else ''))
     try:
         x = base_point(op, name, rng)
+        if special is not None:
+            # complex inputs whose imaginary (real) part vanishes exactly: shortcuts for "purely real" data must still
+            # write every entry of the result
+            a = np.array(np.asarray(x), copy=True)
+            a = a.real.astype(a.dtype) if special == 'imag=0' else (1j * a.imag).astype(a.dtype)
+            x = op.domain.element(a)
     except Exception as e:
         ctx.skip('no base point: ' + type(e).__name__)
         return None, None
@@ -131,7 +137,7 @@ def protocol(ctx, name, op, rng, manufactured=''):
         # F-ordered out for plain tensor spaces with ndim >= 2
         ran = op.range
         if isinstance(ran, odl.space.npy_tensors.NumpyTensorSpace) and ran.ndim >= 2:
-            out = ran.element(np.full(ran.shape, np.nan, dtype=ran.dtype, order='F'))
+            out = ran.element(np.full(ran.shape, complex(np.nan, np.nan) if np.dtype(ran.dtype).kind == 'c' else np.nan, dtype=ran.dtype, order='F'))
             try:
                 op(x, out=out)
                 if not util.close(out, y0, 1e-10, 1e-12):
@@ -208,7 +214,10 @@ def honesty(ctx, name, op, rng, manufactured=''):
         a = 1.7
         lhs = util.to_cvec(op.range, op(a * x + y))
         rhs = a * util.to_cvec(op.range, op(x)) + util.to_cvec(op.range, op(y))
-        if not np.allclose(lhs, rhs, rtol=1e-9, atol=1e-9 * max(1.0, np.abs(rhs).max() if rhs.size else 1.0)):
+        single = any(np.dtype(l.dtype).itemsize // (2 if np.dtype(l.dtype).kind == 'c' else 1) <= 4 and np.dtype(l.dtype).kind in 'fc'
+                     for sp_ in (op.domain, op.range) if not util.is_field(sp_) for _p, l in util.leaves(sp_))
+        tol = 1e-4 if single else 1e-9
+        if not np.allclose(lhs, rhs, rtol=tol, atol=tol * max(1.0, np.abs(rhs).max() if rhs.size else 1.0)):
             ctx.violation(comp, cfg, 'flagged-linear-but-not-additive', name=name)
     except (odl.OpNotImplementedError, NotImplementedError):
         pass
@@ -454,6 +463,10 @@ def run(ctx):
                     cov.add(vars(c)[m], '%s.%s' % (c.__name__, m))
         cov.arm() if not cov.armed else None
         x, y0 = protocol(ctx, name, op, rng)
+        if x is not None and not util.is_field(op.domain) and not util.is_pspace(op.domain) and getattr(op.domain, 'is_complex', False) \
+                and not registry.needs_positive(name):
+            for special in ('imag=0', 'real=0'):
+                protocol(ctx, name, op, rng, special=special)
         honesty(ctx, name, op, rng)
         if x is not None:
             rejections(ctx, name, op, rng, x)
